@@ -139,6 +139,15 @@ DefSmooth(k) ==
           hi == Min2(TotalUnits, UnitStart(i) + own + extra)
       IN RDiv(RSum([u \in 1..(hi-lo+1) |-> UnitVal(lo+u-1)]), RI(hi-lo+1))]
 ----------------------------------------------------------------------------
+\* ---- error paths of integral(interval), in the order the code tests them
+\*   PieceWiseConstFunc : explicit ValueError checks (inverted, below the support, above the support)
+\*   PieceWiseLinFunc   : assert on the start index only; an end beyond the support indexes past the arrays
+\*   DiscreteFunc       : assert on both indices
+BadOutcome(a, b) ==
+   LET below == RLt(a, f.x[1])  above == RLt(f.x[NX], b) IN
+   IF Kind = "pwc" THEN "raise:ValueError"
+   ELSE IF Kind = "pwl" THEN (IF below THEN "raise:AssertionError" ELSE "raise:IndexError")
+   ELSE "raise:AssertionError"
 NoQ == [kind |-> "none", a |-> Zero, b |-> Zero, c |-> Zero, d |-> Zero, k |-> 0]
 NoR == [branch |-> "none", v |-> Zero, m |-> Zero, xs |-> <<>>, ys |-> <<>>]
 Init == f \in {Fn(xs) : xs \in XSets} /\ q = NoQ /\ res = NoR
@@ -152,6 +161,12 @@ Choose ==
       \/ (Kind # "disc" /\ \E t \in Quarter : q' = [NoQ EXCEPT !.kind = "eval", !.a = t])
       \/ (Kind # "disc" /\ q' = [NoQ EXCEPT !.kind = "plot"])
       \/ (Kind = "disc" /\ \E k \in 0..2 : q' = [NoQ EXCEPT !.kind = "plot", !.k = k])
+      \* error paths: intervals that leave the support or are inverted
+      \/ \E a \in {RSub(RI(T0), Half), RSub(RI(T0), RI(2))}, b \in {RI(T0+1), RI(T)} :
+            q' = [NoQ EXCEPT !.kind = "bad", !.a = a, !.b = b]
+      \/ \E a \in {RI(T0), RAdd(RI(T0), Half)}, b \in {RAdd(RI(T), Half), RI(T+3)} :
+            q' = [NoQ EXCEPT !.kind = "bad", !.a = a, !.b = b]
+      \/ (Kind = "pwc" /\ \E a, b \in HalfG : RLt(b, a) /\ q' = [NoQ EXCEPT !.kind = "bad", !.a = a, !.b = b])
    /\ UNCHANGED <<f, res>>
 Exec ==
    /\ q.kind # "none" /\ res.branch = "none"
@@ -167,6 +182,7 @@ Exec ==
                                  [NoR EXCEPT !.branch = "multi", !.v = RAdd(r1.v, r2.v), !.m = RAdd(r1.m, r2.m)]
           ELSE [NoR EXCEPT !.branch = "multi", !.v = RAdd(IntegralCont(q.a, q.b).v, IntegralCont(q.c, q.d).v),
                            !.m = RAdd(RSub(q.b, q.a), RSub(q.d, q.c))])
+      ELSE IF q.kind = "bad" THEN [NoR EXCEPT !.branch = BadOutcome(q.a, q.b)]
       ELSE IF q.kind = "eval" THEN
          LET r == EvalScalar(q.a) IN [NoR EXCEPT !.branch = r.branch, !.v = r.v, !.m = EvalSeq(q.a)]
       ELSE IF Kind = "disc" THEN
@@ -204,6 +220,10 @@ DiscMulti == (Done /\ Kind = "disc" /\ q.kind = "multi") =>
 SmoothingIsUnitMean == (Done /\ Kind = "disc" /\ q.kind = "plot") =>
    /\ res.xs = f.x
    /\ res.ys = IF q.k = 0 THEN [i \in 1..NX |-> RDiv(f.y1[i], f.y2[i])] ELSE DefSmooth(q.k)
+\* an interval that is not inside the support is never answered with a number
+BadIsRejected == (Done /\ q.kind = "bad") =>
+   /\ (RLt(q.b, q.a) \/ RLt(q.a, f.x[1]) \/ RLt(f.x[NX], q.b))
+   /\ res.branch \in {"raise:ValueError", "raise:AssertionError", "raise:IndexError"}
 Export == Done =>
    PrintT(ToJson([k |-> "query", kind |-> Kind, f |-> f, q |-> q, res |-> res]))
 =============================================================================
